@@ -90,10 +90,18 @@ func runC12(c *core.Ctx) {
 		c12Channels(c, cfg, b, reg, false)
 		if reg.ExtraChannels {
 			base := reg.Uplink[0].Freq
+			const k4, k5 = 4, 5
 			for k := uint32(1); k <= 3; k++ {
 				b.AddChannel(base+k*1600000, 0, 5)
 			}
 			b.AddChannel(base+200000*7, 6, 6)
+			c12Channels(c, cfg, b, reg, true)
+			// a second data-rate range on a frequency that is already in the plan (868.3 MHz DR6 next to
+			// 868.3 MHz DR0-5 is the textbook case), followed by further channels
+			b.AddChannel(reg.Uplink[len(reg.Uplink)-1].Freq, 6, 6)
+			b.AddChannel(base+k4*1600000, 0, 5)
+			b.AddChannel(base+1600000, 6, 6)
+			b.AddChannel(base+k5*1600000, 0, 5)
 			c12Channels(c, cfg, b, reg, true)
 		}
 		c12RX1DR(c, cfg, b, reg, snap)
